@@ -30,6 +30,10 @@ impl MessageReplacer {
             if raw.starts_with(b"#") {
                 continue;
             }
+            // `regex:` / `glob:` lines belong to the regex replacers, not to the literal rules
+            if raw.starts_with(b"regex:") || raw.starts_with(b"glob:") {
+                continue;
+            }
             if let Some(pos) = find_subslice(raw, b"==>") {
                 let from = raw[..pos].to_vec();
                 let to = raw[pos + 3..].to_vec();
